@@ -674,6 +674,13 @@ class Interp:
                 w = v.size()
                 if bits == w: return v
                 if bits < w: return z3.simplify(z3.Extract(bits - 1, 0, v))
+                sty = None
+                m_ = re.match(r'^(?:copy|move) (.*)$', srctxt.strip())
+                if m_ and frame is not None:
+                    try:
+                        loc_, pr_ = parse_place(m_.group(1)); sty = int_ty_of(s.place_type(frame, loc_, pr_))
+                    except Exception: sty = None
+                if sty is not None and is_signed(sty): return z3.simplify(z3.SignExt(bits - w, v))
                 return z3.simplify(z3.ZeroExt(bits - w, v))
             raise Unsupported(f'cast {v!r} to {ty}')
         if kind == 'PointerCoercion' or kind.startswith('Pointer') or kind in ('Transmute', 'PtrToPtr', 'Subtype'):
@@ -761,8 +768,16 @@ class Interp:
                     if ty is None: raise Unsupported('untyped shift')
                     w = INT_BITS[ty]
                 X = bv(x, w); Y = bv(y, w)
+                sty = ty_of_operand(0) or int_ty_of(dst_ty)
+                if op == 'Shr' and sty is not None and is_signed(sty): return z3.simplify(X >> Y)
                 return z3.simplify(X << Y if op == 'Shl' else z3.LShR(X, Y))
             X, Y = bv(x), bv(y)
+            if ty is not None and is_signed(ty) and op in ('Lt', 'Le', 'Gt', 'Ge', 'AddWithOverflow', 'SubWithOverflow', 'MulWithOverflow'):
+                r = {'Lt': lambda: X < Y, 'Le': lambda: X <= Y, 'Gt': lambda: X > Y, 'Ge': lambda: X >= Y,
+                     'AddWithOverflow': lambda: Agg('tuple', [z3.simplify(X + Y), z3.simplify(z3.Not(z3.And(z3.BVAddNoOverflow(X, Y, True), z3.BVAddNoUnderflow(X, Y))))]),
+                     'SubWithOverflow': lambda: Agg('tuple', [z3.simplify(X - Y), z3.simplify(z3.Not(z3.And(z3.BVSubNoOverflow(X, Y), z3.BVSubNoUnderflow(X, Y, True))))]),
+                     'MulWithOverflow': lambda: Agg('tuple', [z3.simplify(X * Y), z3.simplify(z3.Not(z3.And(z3.BVMulNoOverflow(X, Y, True), z3.BVMulNoUnderflow(X, Y))))])}[op]()
+                return z3.simplify(r) if isinstance(r, z3.ExprRef) else r
             r = {'Lt': lambda: z3.ULT(X, Y), 'Le': lambda: z3.ULE(X, Y), 'Gt': lambda: z3.UGT(X, Y), 'Ge': lambda: z3.UGE(X, Y), 'Eq': lambda: X == Y, 'Ne': lambda: X != Y,
                  'Add': lambda: X + Y, 'Sub': lambda: X - Y, 'Mul': lambda: X * Y, 'BitAnd': lambda: X & Y, 'BitOr': lambda: X | Y, 'BitXor': lambda: X ^ Y,
                  'AddWithOverflow': lambda: Agg('tuple', [z3.simplify(X + Y), z3.simplify(z3.Not(z3.BVAddNoOverflow(X, Y, False)))]),
